@@ -20,8 +20,12 @@ func init() {
 		steps, _ := r1.Extra["steps_total"].(int)
 		h := vsimNewTape("crashpoint", seed)
 		p := map[string]int{"crash_kind": h.intn(7), "crash_side": h.intn(2)}
-		if h.intn(3) == 0 && steps > 0 {
+		dlv, _ := r1.Extra["deliver_steps"].([]int)
+		if r := h.intn(9); r < 3 && steps > 0 {
 			p["crash_step"] = 1 + h.intn(steps)
+		} else if r < 5 && len(dlv) > 0 {
+			// teardown racing with the processing of an inbound packet: a few steps behind one of the deliveries
+			p["crash_step"] = dlv[h.intn(len(dlv))] + 1 + h.intn(10)
 		} else {
 			p["crash_ev"] = h.intn(ev + 1)
 		}
@@ -226,6 +230,9 @@ func scenarioCrash(w *world) {
 	}
 	w.extra["wire_events"] = len(w.allPkts)
 	w.extra["steps_total"] = w.sim.nSteps
+	if !armed {
+		w.extra["deliver_steps"] = w.dlvSteps
+	}
 	w.extra["base"] = base
 	if !armed {
 		return // reference pass
